@@ -260,6 +260,27 @@ def type_tag_of(v):
     return "?"
 
 
+_ALLOC = ("np.zeros", "np.ones", "np.empty", "np.zeros_like", "np.ones_like", "np.empty_like", "np.full", "np.full_like")
+
+
+def is_allocation(c):
+    """A freshly allocated array (concrete Arr, or the term of an allocation call, possibly negated / scaled): stores into it are
+    recorded events of the fold; its own term stays the allocation."""
+    if isinstance(c, Arr):
+        return True
+    if isinstance(c, Sym):
+        fn = c.fn
+        if isinstance(c.recv, Opaque) and c.recv.tag == "callable" and c.attr:
+            fn = f"{c.recv.label}.{c.attr}"
+        if fn in _ALLOC:
+            return True
+        if fn == "neg" and len(c.args) == 1:
+            return is_allocation(c.args[0])
+        if fn == "*" and len(c.args) == 2:
+            return any(is_allocation(a) for a in c.args) and any(not isinstance(a, (Sym, Opaque, Arr)) for a in c.args)
+    return False
+
+
 def escapes(trace, obj):
     """True when the tracked container `obj` was handed to a call that stayed symbolic (the callee may have modified it: the recorded
     stores are then not the whole story)."""
@@ -575,6 +596,20 @@ class Folder:
                     return (self.ev(st.value, {}),)
             k = next((b for b in k.bases if hasattr(b, "node")), None)
         return None
+
+    def _rebind(self, where, value, env):
+        """Functional update of a symbolic array that is not a fresh allocation: the variable / object attribute holding it gets the
+        updated term (other names bound to the old term keep the old value: refused when that could be observed is beyond this fold,
+        so only plain names and attributes of stand-in objects are accepted)."""
+        if isinstance(where, ast.Name) and where.id in env:
+            env[where.id] = value
+            return
+        if isinstance(where, ast.Attribute):
+            o = self.ev(where.value, env)
+            if isinstance(o, Obj) and where.attr in o.fields:
+                o.fields[where.attr] = value
+                return
+        raise Refuse("in-place update of a symbolic array reached through an expression")
 
     def _index_value(self, sl, env):
         try:
@@ -1194,7 +1229,10 @@ class Folder:
                 # in-place update of part of an array: recorded, in order (container, index, operator, operand)
                 c = self.ev(st.target.value, env)
                 if isinstance(c, (Arr, Sym, Opaque)):
-                    self.trace.append(Sym("augitem", [c, self.ev(st.target.slice, env), self._OPSYM[type(st.op)], self.ev(st.value, env)]))
+                    if is_allocation(c):
+                        self.trace.append(Sym("augitem", [c, self.ev(st.target.slice, env), self._OPSYM[type(st.op)], self.ev(st.value, env)]))
+                    else:
+                        self._rebind(st.target.value, Sym("upd", [c, self.ev(st.target.slice, env), self._OPSYM[type(st.op)], self.ev(st.value, env)]), env)
                     return
             if cur is None and not isinstance(st.target, ast.Name):
                 raise Refuse("augassign target")
@@ -1282,8 +1320,12 @@ class Folder:
                 except (IndexError, TypeError):
                     raise Raised("IndexError", t)
             elif self.symbolic and isinstance(c, (Sym, Opaque, Arr)):
-                # a store into a symbolic array: recorded, in order
-                self.trace.append(Sym("setitem", [c, i, v]))
+                if is_allocation(c):
+                    # a store into a freshly allocated table: recorded, in order (the rules that read the table read these records)
+                    self.trace.append(Sym("setitem", [c, i, v]))
+                else:
+                    # any other symbolic array: the name / attribute it is reached through is re-bound to the updated value
+                    self._rebind(t.value, Sym("upd", [c, i, "=", v]), env)
             else:
                 raise Refuse("subscript store")
         else:
